@@ -123,6 +123,21 @@ PROPS = {
                   'ssh.ParsePublicKey verdicts are oracles on the case line', 'os/exec and the fake PIV tool'],
     assumptions=['well-formedness required by the wire format is explicit in the theorems; the excluded points are the known findings F11a-c'],
  ),
+ 'C20': dict(
+    group='conc', only=['cond'], ops=['cond'],
+    modules=['Ysshra.Props.C20', 'Ysshra.Bridge.Wire'],
+    theorem_files=['Props/C20.lean', 'Bridge/Wire.lean'],
+    anchors=['agent/shimagent/shimserver.go', 'agent/yubiagent/server.go'],
+    n=dict(quick=150, thorough=3000),
+    timeout=dict(quick=900, thorough=3400),
+    trivial=lambda c: False,
+    rule='histories of wait-registrations and requests against the real *shimagent.Server behind yubiagent.ServeAgent (one Unix socket-pair connection per client, harness-served underlying keyring agent): '
+         'every code 0..255 with one waiter, a non-matching and the matching request; random histories of 3..10 events with 1..8 waiters on equal and different codes (in and outside the table) and requests of matching / non-matching codes. '
+         'Registration is observed through the overlay accessor VerifWaiters (sync.Cond notifyList), not slept for. Every case is non-trivial; distinct = distinct event strings.',
+    trusted_base=['sync.Cond implements wait/broadcast (runtime)', 'the overlay accessor shimagent.(*Server).VerifWaiters reads sync.Cond internals by reflection',
+                  'a release is attributed to the event after which the client returned within 700 ms (+25 ms settle)'],
+    assumptions=['Go scheduler / sync.Cond semantics are not modelled (partial): the theorems are about the wait/broadcast discipline'],
+ ),
 }
 
 NOT_APPLICABLE = {}
@@ -185,4 +200,10 @@ MANIFEST_TEXT = {
     design_ref='DESIGN.md §7 C13',
     note=_NOTE + "x/crypto client/server for the standard operations and os/exec are trusted.",
     technique='Lean 4 proof (codec round-trips through the dispatch model) + client/server correspondence'),
+ 'C20': dict(
+    text='Lean theorems over histories of wait registrations and requests: a request with code c releases exactly the clients registered on c, all together, and keeps every other waiter; a waiter stays blocked through any sequence without a c-request and the next c-request frees it (induction over the history); codes outside the table return immediately and wake nobody; '
+         'with the regenerated table size 40 and guard `msg < byte(len)` every guarded access is in range for all 256 codes; ServeAgent broadcasts req[0] before dispatch (regenerated). The history model is compared with the real server using observed registration.',
+    design_ref='DESIGN.md §7 C20',
+    note=_NOTE + 'sync.Cond and the Go scheduler are trusted (partial).',
+    technique='Lean 4 proof (invariant over event histories) over regenerated table facts + observed-schedule correspondence'),
 }
